@@ -54,6 +54,7 @@ def check(cx):
         'R13.11 every Reply variant is rendered with the numeric in its name, the client as first parameter, and every one of its fields (100 variants)',
         'R13.12 every reply is addressed to the requesting connection: the client parameter of every Reply literal is client_name() of the connection\'s own state, which is its nick, else its user name, else its host',
         'R13.13 the received line is only trimmed at its start before it is split: trailing blanks belong to the trailing parameter',
+        'R13.14 every Command field is built from the message parameters without slicing, trimming or case-folding them (what the handler applies is what the relayed original message says); the line handed to the tokeniser is the decoded line itself',
         'R13.9 offset coordinates in the parser: the length of a piece found inside the sub-slice base[a..] is used as an offset into base only with a added',
         'R13.8 the trailing parameter is split off at " :" (accepted idiom); a split at a bare \':\' necessarily misreads "X a:b c"',
     ]
@@ -468,6 +469,57 @@ def check(cx):
         if e.data['name'] not in ('trim_start', 'trim_start_matches', 'trim_left', 'trim_left_matches'):
             r13.violation('from_shared_str|trims-end|%s' % e.data['name'], '%s() removes blanks at the end of the line: a trailing parameter '
                           'ending in blanks (a message text) is executed and relayed shortened' % e.data['name'], loc=cx.loc(e.node))
+    # ... and the caller hands the decoded line over as it came off the codec
+    nsite = 0
+    for fn, e in census:
+        if e.kind == 'call' and e.data.get('local') and e.data['name'] == 'from_shared_str' and e.data['args']:
+            nsite += 1
+            t = e.data['args'][0]
+            while isinstance(t, tuple) and t and t[0] in ('some_of', 'field', 'vfield', 'idx', 'ok', 'some'):
+                t = t[1]
+            r13.instance('%s parses %s' % (short_fn(fn), show_term(e.data['args'][0])[:60]))
+            if isinstance(t, tuple) and t and t[0] == 'call' and t[1].split('::')[-1] not in ('poll_fn', 'next', 'recv', 'read_line'):
+                r13.violation('%s|line-altered|%s' % (short_fn(fn.replace('::{closure#0}', '')), t[1].split('::')[-1]),
+                              'the received line is passed through %s() before it is parsed: what is executed and relayed is not '
+                              'what the client sent' % t[1].split('::')[-1], loc=cx.loc(e.node))
+    if nsite == 0:
+        raise AnchorLost('no call of Message::from_shared_str found')
+
+    # ---------------------------------------------------------------- R13.14 command fields are the message parameters themselves
+    # (a field that is relayed through the original message - NICK, PRIVMSG text, TOPIC - must be what the handler applies)
+    r14 = cx.rule('R13.14', 'command fields are taken from the parameters verbatim', floor=30, kind='provenance')
+    fpm = cx.fn('parse_from_message')
+    wpm = cx.walk(fpm, args=[P('message')], key='c13pm')
+    ALTER = ('trim', 'trim_end', 'trim_start', 'trim_matches', 'trim_end_matches', 'trim_start_matches', 'to_lowercase', 'to_ascii_lowercase',
+             'to_uppercase', 'replace', 'replacen', 'truncate', 'strip_prefix', 'strip_suffix', 'split_at', 'char_indices', 'get')
+    PARAMS = field(P('message'), 'params')
+
+    def altered(t, out):
+        if not isinstance(t, tuple) or not t:
+            return
+        if t[0] == 'ite':
+            altered(t[2], out)
+            altered(t[3], out)
+            return
+        if t[0] == 'call' and t[1].split('::')[-1] in ALTER and mentions(t, PARAMS):
+            out.append(t[1].split('::')[-1])
+        if t[0] == 'index' and isinstance(t[1], tuple) and t[1][:1] == ('index',) and t[1][1] == PARAMS and \
+                isinstance(t[2], tuple) and t[2][:1] == ('adt',) and 'Range' in t[2][1]:
+            out.append('slice')
+        for x in t[1:]:
+            altered(x, out)
+    for c_, leaf in cases(wpm.retval):
+        if not (isinstance(leaf, tuple) and leaf[:1] == ('ok',) and isinstance(leaf[1], tuple) and leaf[1][:1] == ('adt',)):
+            continue
+        variant = leaf[1][2]
+        for fname, fval in leaf[1][3]:
+            r14.instance('%s.%s' % (variant, fname))
+            how = []
+            altered(fval, how)
+            if how:
+                r14.violation('parse_from_message|%s.%s|%s' % (variant, fname, how[0]), 'Command::%s.%s is not the parameter as sent (%s): the '
+                              'handler applies a different value than the one relayed in the original message' % (variant, fname, how[0]), loc=fpm)
+
     r9 = cx.rule('R13.9', 'offset coordinates of re-sliced pieces', floor=0, kind='arithmetic')
     n9 = check_offset_coordinates(cx, r9, wfs, ffs)
     if n9 == 0:
